@@ -295,6 +295,7 @@ class Policy:
         self.read_ok = set(read_ok)
         self.write_ok = write_ok
         self.std_fds = set(std_fds)
+        self.seen_open = set()      # resolved paths of opens already judged (their reads are not judged again)
 
     def read_allowed(self, p, resolved=None):
         if p in self.read_ok or (resolved is not None and resolved in self.read_ok):
@@ -318,6 +319,8 @@ class Policy:
             resolved = None
             if ev.ret:
                 _fd, resolved = fd_parts(ev.ret.split(" ")[0])
+            if resolved:
+                self.seen_open.add(resolved)
             if self.read_allowed(p, resolved):
                 return None
             return ("open-read", {"path": p, "flags": flags, "syscall": nm, "result": (ev.ret or "")[:80]})
@@ -355,7 +358,7 @@ class Policy:
             fd, fp = fd_of(ev)
             if fd == 0 and 0 in self.std_fds:
                 return None
-            if fp is None:
+            if fp is None or fp in self.seen_open:
                 return None
             q = fp
             if q.startswith("/proc/") and re.match(r"^/proc/\d+/", q):
